@@ -53,7 +53,7 @@ pub struct DhwCase {
 }
 
 fn stepvals(n: usize, hi: u32) -> BoxedStrategy<Vec<u32>> {
-    vec(prop_oneof![2 => Just(0u32), 1 => Just(1u32), 6 => 1u32..=hi], n)
+    vec(prop_oneof![2 => Just(0u32), 1 => Just(1u32), 1 => 1u32..=60, 6 => 1u32..=hi], n)
         .prop_map(|mut v| {
             if v.iter().all(|x| *x == 0) {
                 v[0] = 100;
